@@ -213,6 +213,7 @@ def queries(tier, seed):
     from checks import gwfix
 
     qs += gwfix.queries(tier)
+    qs += gwfix.schema_queries(tier)
     only = os.environ.get("C16_ONLY")
     if only:
         qs = [q for q in qs if only in q.name or q.canary]
@@ -226,6 +227,10 @@ def replay(item):
         from checks import gwfix
 
         return gwfix.replay(item)
+    if prm["h"] == "gwfix-schema":
+        from checks import gwfix
+
+        return gwfix.replay_schema(item)
     if prm["h"] == "format":
         from ramses_tx import exceptions as exc
         from ramses_tx.packet import Packet
